@@ -482,6 +482,17 @@ class HashRule(ABC):
                 return FunctionReference.from_qualified_name(symbol).memento_fn
 
             memento_fn = memento_fn_resolver()
+            if getattr(memento_fn, "required_dependencies", None) is None:
+                # Nothing in this process goes by that name (any more): what came back is a
+                # stand-in for a function that lives elsewhere, which has no code to hash
+                if required:
+                    raise DependencyNotFoundError(
+                        "Could not find required dependency {} for function {}. "
+                        "It does not refer to a Memento function.".format(
+                            symbol, src_fn.__name__
+                        )
+                    )
+                return
             rule = MementoFunctionHashRule(
                 parent_symbol=parent_symbol,
                 symbol=symbol,
